@@ -153,7 +153,7 @@ def check(case, out):
 def run_step(name, c, other, cs, z_new, z_old, k, t, num, out, klass0, idx):
     from compmec.nurbs.calculus import Derivate, Integrate
     n = c.npts
-    zero = 0 * c.ctrlpoints[0]
+    zero = 0 * c.ctrlpoints[0] if c.ctrlpoints is not None else 0
     umin, umax = c.knotvector.limits
     # node sequences are handed over in any accepted form (list / tuple / one-shot iterable), fixed by the step data
     form = ("list", "gen", "tuple", "iter", "list", "map")[(k + idx) % 6]
@@ -340,9 +340,128 @@ def structural_result(r, out, klass0, name, idx):
             out.fail("inconsistent-result", f"{klass0};{name}", f"step {idx} {name}: result is inconsistent: {sp}")
 
 
+# ---------------------------------------------------------------- curves that have no control points yet
+# "starting from any curve": Curve(knotvector) without control points is the usual state before a fit. It shares the
+# KnotVector object with two populated curves; every request goes to the empty curve until a step populates it.
+EMPTY_SAFE = ["knot_insert", "knot_insert_bad", "knot_remove", "knot_remove_bad", "knot_clean", "degree_increase",
+              "degree_increase_bad", "degree_decrease", "degree_set", "degree_set_bad", "degree_clean", "clean",
+              "ctrlpoints_noniter", "weights_ok", "weights_badlen", "weights_zero", "weights_none", "knotvector_refine",
+              "knotvector_other", "fit_points_few", "eval", "eval_outside", "eq", "copy_mutate_empty"]
+EMPTY_POPULATE = ["fit_curve", "ctrlpoints_set", "ctrlpoints_set_badlen"]
+
+
+@st.composite
+def empty_histories(draw, num, maxsteps):
+    case = draw(histories(num, 4))
+    steps = draw(st.lists(st.tuples(st.sampled_from(EMPTY_SAFE * 3 + EMPTY_POPULATE + MUTATORS + READERS),
+                                    st.sampled_from(["c1", "c2"]), st.integers(0, 7),
+                                    st.sampled_from([F(1, 2), F(1, 3), F(3, 4)])), min_size=3, max_size=maxsteps))
+    return dict(case, steps=steps)
+
+
+def empty_structure(curve):
+    kv = curve.knotvector
+    if len(kv) - kv.degree - 1 != kv.npts or curve.npts != kv.npts or curve.degree != kv.degree:
+        return f"npts={curve.npts}, degree={curve.degree}, knot vector {list(kv)} (degree {kv.degree}, npts {kv.npts})"
+    why = oracle.wellformed([oracle.frac(u) for u in kv], kv.degree)
+    if why:
+        return f"knot vector {list(kv)}: {why}"
+    if curve.ctrlpoints is not None and len(curve.ctrlpoints) != kv.npts:
+        return f"{len(curve.ctrlpoints)} control points, npts={kv.npts}"
+    if curve.weights is not None and len(curve.weights) != kv.npts:
+        return f"{len(curve.weights)} weights, npts={kv.npts}"
+    return None
+
+
+def check_empty(case, out):
+    num = case["num"]
+    U = [lib.conv_knot(u, num) for u in case["U"]]
+    shared = lib.KnotVector(U)
+    shared_list = list(shared)
+    cs = {
+        "c1": lib.Curve(shared, lib.conv_points(case["P1"], num)),
+        "c2": lib.Curve(shared, lib.conv_points(case["P2"], num),
+                        None if case["w2"] is None else [lib.conv_val(x, num) for x in case["w2"]]),
+        "e": lib.Curve(shared),
+    }
+    klass0 = ("exact" if lib.is_exact(num) else "float") + ";empty"
+    out.cls("num=" + num, "shared-object" if cs["e"].knotvector is cs["c1"].knotvector else "not-shared")
+    changed_while_empty = 0
+    for idx, (name, oname, k, t) in enumerate(case["steps"], 1):
+        e, other = cs["e"], cs[oname]
+        empty = e.ctrlpoints is None
+        if empty and name not in EMPTY_SAFE + EMPTY_POPULATE:
+            continue
+        if not empty and name in ("ctrlpoints_set", "ctrlpoints_set_badlen", "copy_mutate_empty"):
+            continue
+        out.cls(("empty:" if empty else "populated:") + "op=" + name)
+        snaps = {nm: lib.snapshot(c) for nm, c in cs.items()}
+        fU = [oracle.frac(u) for u in e.knotvector]
+        bk = oracle.breaks(fU)
+        j = k % (len(bk) - 1)
+        z_new = lib.conv_knot(bk[j] + (bk[j + 1] - bk[j]) * t, num)
+        z_old = list(e.knotvector)[min(len(fU) - 1, e.degree + 1 + k % max(1, len(fU) - 2 * e.degree - 2))] \
+            if len(bk) > 2 else None
+        exc = None
+        try:
+            if name == "ctrlpoints_set":
+                e.ctrlpoints = [lib.conv_val(F(i + k, 3), num) for i in range(e.npts)]
+            elif name == "ctrlpoints_set_badlen":
+                e.ctrlpoints = [lib.conv_val(F(i + k, 3), num) for i in range(e.npts + 1 + k % 2)]
+            elif name == "copy_mutate_empty":
+                cp = _copy.copy(e) if k % 2 else _copy.deepcopy(e)
+                if cp is e or cp.knotvector is e.knotvector:
+                    out.fail("copy-shares-state", klass0 + ";copy", f"step {idx}: the copy shares the knot vector object")
+                cp.knot_insert([z_new])
+                cp.degree_increase(1)
+                cp.knotvector.shift(1)
+            else:
+                run_step(name, e, other, cs, z_new, z_old, k, t, num, out, klass0, idx)
+        except Exception as ex:
+            if not lib.from_library(ex):
+                raise
+            exc = ex
+        where = f"step {idx} {name}(e{'' if empty else ' populated'},{oname})"
+        klass = f"{klass0};{name}"
+        after = {nm: lib.snapshot(c) for nm, c in cs.items()}
+        for nm in ("c1", "c2"):
+            if after[nm] != snaps[nm]:
+                out.fail("other-curve-modified", klass, f"{where}: curve {nm} changed although the step targets the curve e")
+            sp = structural_problem(cs[nm])
+            if sp:
+                out.fail("inconsistent-state", klass, f"after {where}: curve {nm}: {sp}")
+                cs[nm] = lib.Curve(list(shared_list), lib.conv_points(case["P1"], num))
+        mutator = name in MUTATORS or name in ("ctrlpoints_set", "ctrlpoints_set_badlen")
+        if after["e"] != snaps["e"]:
+            if exc is not None:
+                out.fail("atomicity", klass, f"{where}: raised {type(exc).__name__} ({exc}) but the curve changed: "
+                                             f"U={list(e.knotvector)} P={e.ctrlpoints} w={e.weights}")
+            elif not mutator:
+                out.fail("operand-modified", klass, f"{where}: non-mutating operation changed its operand")
+            elif empty:
+                changed_while_empty += 1
+        sp = empty_structure(cs["e"]) if cs["e"].ctrlpoints is None else structural_problem(cs["e"])
+        if sp:
+            out.fail("inconsistent-state", klass, f"after {where}: curve e: {sp}")
+            cs["e"] = lib.Curve(list(shared_list))
+        if list(shared) != shared_list:
+            out.fail("shared-knotvector-mutated", klass,
+                     f"{where}: the KnotVector object used to build e, c1 and c2 changed to {list(shared)}")
+            shared_list = list(shared)
+        if exc is not None:
+            out.cls("raised")
+    out.nontrivial = changed_while_empty >= 1
+
+
 FACETS = [
     Facet("history-exact", lambda tier: histories("frac", 25 if tier == "quick" else 40), check, quick=400, thorough=3500,
           rule="Fraction data", case_timeout=180),
     Facet("history-float", lambda tier: histories("float", 25 if tier == "quick" else 40), check, quick=280,
           thorough=2500, rule="float data (includes Projection / Intersection steps on 2-D curves)", case_timeout=180),
+    Facet("history-empty", lambda tier: st.sampled_from(["frac", "frac", "float"]).flatmap(
+        lambda num: empty_histories(num, 12 if tier == "quick" else 20)), check_empty,
+          quick=500, thorough=4000, case_timeout=180,
+          rule="a curve without control points built from the KnotVector object of two populated curves; requests go "
+               "to the empty curve until a fit or the ctrlpoints setter populates it (non-trivial: a request changed "
+               "the empty curve)"),
 ]
